@@ -191,6 +191,8 @@ class ProgressivelyTerminalDecider(BaseDecider):
 
         grammar_weights = self.grammar.get_weights()
         weights = [w(alt) * grammar_weights.get(alt, 1.0) for alt in alternatives]
+        if not any(weights):
+            weights = [grammar_weights.get(alt, 1.0) for alt in alternatives]
         return self.random.choice_weighted(alternatives, weights)
 
 
